@@ -25,7 +25,7 @@ sys.path.insert(0, ROOT)
 from vf import core  # noqa: E402
 from vf.core import PROVED, REFUTED, UNDECIDED, Ob  # noqa: E402
 
-CONTRACT_MODULES = ["contracts.nodes", "contracts.times", "contracts.captures", "contracts.deref", "contracts.typing", "contracts.toplevel",
+CONTRACT_MODULES = ["contracts.nodes", "contracts.times", "contracts.captures", "contracts.deref", "contracts.typing", "contracts.toplevel", "contracts.anymacro",
                     "contracts.driver", "contracts.config", "contracts.parser", "contracts.macros", "contracts.cli_main",
                     "contracts.canaries"]
 
@@ -123,18 +123,21 @@ def main(argv=None) -> int:
 
     errors = [(core.REGISTRY[i].ident, err) for (i, _o, err, _t, _inf) in results if err]
     obs: List[Dict[str, Any]] = []
+    all_obs: Dict[str, Dict[str, Any]] = {}
     scen_info = []
     rewrites: Dict[str, Any] = {}
     for (i, o, err, dt, info) in results:
         sc = core.REGISTRY[i]
         own = [x for x in o if prop in x["props"] or "*" in x["props"]]
+        for x in o:
+            all_obs[x["name"]] = x
         obs.extend(own)
         scen_info.append({"scenario": sc.ident, "function": sc.func, "inlined": sc.inlined, "obligations": len(own),
                           "seconds": round(dt, 3)})
         rewrites.update(info.get("rewrites", {}))
 
     findings = load_findings()
-    by_name = {o["name"]: o for o in obs}
+    by_name = all_obs
     canaries = [o for o in obs if o["family"] == "CANARY"]
     real = [o for o in obs if o["family"] != "CANARY"]
     canary_bad = [o for o in canaries if o["status"] != REFUTED]
